@@ -5,7 +5,7 @@
    column updates with merge rewriting, computed columns on the rewritten ops, then row
    markers), so that the theorems in StoreProofs.v connect this operational order to the
    declarative per-cell / per-set reading a user has.  No proofs in this file. *)
-From stdpp Require Import gmap sorting.
+From stdpp Require Import gmap mapset sorting.
 From ColumnV Require Import GenConsts Bytes.
 Local Open Scope N_scope.
 
@@ -14,6 +14,11 @@ Definition bytes := list N.
 Global Instance kind_eq_dec : EqDecision kind. Proof. solve_decision. Defined.
 Global Instance value_eq_dec : EqDecision value. Proof. solve_decision. Defined.
 Global Instance op_eq_dec : EqDecision op. Proof. solve_decision. Defined.
+
+(* single-element set operations in O(log n) (the generic union / difference of gset walk the
+   whole set); StoreProofs.v shows sadd i X = {[i]} ∪ X and sdel i X = X ∖ {[i]} *)
+Definition sadd (i : N) (X : gset N) : gset N := let (m) := X in Mapset (<[i := ()]> m).
+Definition sdel (i : N) (X : gset N) : gset N := let (m) := X in Mapset (delete i m).
 
 (* block ("chunk") of an offset; the size is regenerated from txn_lock.go *)
 Definition blk (i : N) : N := i / c_txn_lock_chunkSize.
@@ -98,8 +103,8 @@ Inductive computed :=
 Definition comp_step (x : computed) (o : op) : computed :=
   match x, ok o with
   | XIndex rule bits, KPut =>
-      XIndex rule (if rule (ooff o) (oval o) then {[ooff o]} ∪ bits else bits ∖ {[ooff o]})
-  | XIndex rule bits, KDelete => XIndex rule (bits ∖ {[ooff o]})
+      XIndex rule (if rule (ooff o) (oval o) then sadd (ooff o) bits else sdel (ooff o) bits)
+  | XIndex rule bits, KDelete => XIndex rule (sdel (ooff o) bits)
   | XTrigger log, KPut => XTrigger (log ++ [TStored (ooff o) (oval o)])
   | XTrigger log, KDelete => XTrigger (log ++ [TDeleted (ooff o)])
   | XSorted tree, KPut => XSorted (<[ooff o := vbytes_of (oval o)]> tree)
@@ -300,10 +305,10 @@ Global Instance res_eq_dec : EqDecision res. Proof. solve_decision. Defined.
 
 (* insert at the offset the allocator handed out (txn.go insert; collection.go next / free) *)
 Definition do_insert (s : coll) (t : txn) (off : N) (ws : list write) (fail : bool) : coll * txn :=
-  let s1 := set_fill s ({[off]} ∪ fill s) (count s + 1) in
+  let s1 := set_fill s (sadd off (fill s)) (count s + 1) in
   let t1 := do_writes s1 off (push_row t (mkop KInsert off V0)) ws in
   if fail then
-    let f2 := fill s1 ∖ {[off]} in (set_fill s1 f2 (N.of_nat (size f2)), t1)
+    let f2 := sdel off (fill s1) in (set_fill s1 f2 (N.of_nat (size f2)), t1)
   else (s1, mktxn (tsel t1) (tbufs t1) (trow t1) (tres t1 ++ [off])).
 
 Definition put_key (s : coll) (t : txn) (off : N) (k : bytes) : txn :=
@@ -404,7 +409,7 @@ Fixpoint do_stmts (s : coll) (t : txn) (l : list stmt) : coll * txn * list res :
 (* Commit and rollback (txn.go:500-617 with the block loop of txn_lock.go:78)              *)
 
 Definition mark_step (f : gset N) (o : op) : gset N :=
-  match ok o with KInsert => {[ooff o]} ∪ f | KDelete => f ∖ {[ooff o]} | _ => f end.
+  match ok o with KInsert => sadd (ooff o) f | KDelete => sdel (ooff o) f | _ => f end.
 
 Definition all_ops (t : txn) : list op := trow t ++ concat (snd <$> map_to_list (tbufs t)).
 Definition dirty_blocks (t : txn) : list N :=
@@ -448,7 +453,7 @@ Definition commit_blocks (s : coll) (t : txn) (bs : list N) : coll := foldl (λ 
 Definition commit (s : coll) (t : txn) : coll := commit_blocks s t (dirty_blocks t).
 
 Definition rollback (s : coll) (t : txn) : coll :=
-  let f := foldl (λ f i, f ∖ {[i]}) (fill s) (tres t) in
+  let f := foldl (λ f i, sdel i f) (fill s) (tres t) in
   set_fill s f (N.of_nat (size f)).
 
 Definition run_txn (s : coll) (body : list stmt) (commitp : bool) : coll * list res :=
@@ -511,13 +516,16 @@ Definition restore (fresh : coll) (snap : list crec) : coll := foldl replay fres
 (* ------------------------------------------------------------------------------------- *)
 (* What an observer can see                                                                *)
 
-Definition row_of (s : coll) (i : N) : list (N * value) :=
-  omap (λ c, (λ v, (c, v)) <$> read s c i) (merge_sort N.le (elements (dom (cols s)))).
+Definition col_ids (s : coll) : list N := merge_sort N.le (elements (dom (cols s))).
+Definition row_with (s : coll) (ids : list N) (i : N) : list (N * value) :=
+  omap (λ c, (λ v, (c, v)) <$> read s c i) ids.
+Definition row_of (s : coll) (i : N) : list (N * value) := row_with s (col_ids s) i.
 Definition idx_of (s : coll) (i : N) : list N :=
   omap (λ e, match xstate e with
              | XIndex _ bits => if decide (i ∈ bits) then Some (xid e) else None
              | _ => None end) (comps s).
 Definition dump (s : coll) : list (N * (list (N * value) * list N)) :=
-  (λ i, (i, (row_of s i, idx_of s i))) <$> sorted_elems (fill s).
+  let ids := col_ids s in
+  (λ i, (i, (row_with s ids i, idx_of s i))) <$> sorted_elems (fill s).
 Definition trig_log (s : coll) (id : N) : list tevent :=
   match find_comp s id with Some e => match xstate e with XTrigger l => l | _ => [] end | None => [] end.
